@@ -258,6 +258,25 @@ fn short_path_variants<C: MlsConfig>(w: &World<C>, ai: usize, out: &mut Out) {
     let mut edits: Vec<(String, InsiderEdit, i64)> =
         (0..5usize).map(|k| (format!("insider-consistent-short-path{k}"), InsiderEdit::TruncatePathConsistent(k), k as i64)).collect();
     edits.push(("insider-long-path".into(), InsiderEdit::ExtendPath, -1));
+    let ph_edits: Vec<(String, InsiderEdit)> = vec![
+        ("insider-parent-hash-empty".into(), InsiderEdit::SetLeafParentHash(Some(vec![]), 0)),
+        ("insider-parent-hash-prefix1".into(), InsiderEdit::SetLeafParentHash(None, 1)),
+        ("insider-parent-hash-prefix31".into(), InsiderEdit::SetLeafParentHash(None, 31)),
+    ];
+    for (label, edit) in ph_edits {
+        let Ok(m2) = a0.verif_resign_commit(&cm0, &edit) else { continue };
+        let b2 = m2.to_bytes().unwrap();
+        if b2 == cb0 {
+            continue;
+        }
+        for ri in 0..w.members.len() {
+            if ri == ai || w.members[ri].group.is_none() {
+                continue;
+            }
+            let r = w.group(ri).clone();
+            try_variant(&r, &format!("member{ri}"), &cm0, &cb0, &b2, &label, true, None, out);
+        }
+    }
     for (label, edit, keep) in edits {
         let Ok(m2) = a0.verif_resign_commit(&cm0, &edit) else { continue };
         let b2 = m2.to_bytes().unwrap();
@@ -497,6 +516,10 @@ pub fn scenario<C: MlsConfig>(rng: &mut Rng, mk: Mk<C>, out: &mut Out, exhaustiv
             ("insider-path-short1", InsiderEdit::TruncatePath(1)),
             ("insider-path-empty-consistent", InsiderEdit::TruncatePathConsistent(0)),
             ("insider-path-short1-consistent", InsiderEdit::TruncatePathConsistent(1)),
+            ("insider-parent-hash-empty", InsiderEdit::SetLeafParentHash(Some(vec![]), 0)),
+            ("insider-parent-hash-prefix16", InsiderEdit::SetLeafParentHash(None, 16)),
+            ("insider-parent-hash-prefix31", InsiderEdit::SetLeafParentHash(None, 31)),
+            ("insider-parent-hash-other", InsiderEdit::SetLeafParentHash(Some(vec![0x5a; 32]), 0)),
             ("insider-path-long", InsiderEdit::ExtendPath),
             ("insider-path-foreign-key0", InsiderEdit::SetPathKey(0, other_key.clone())),
             ("insider-path-fresh-key0", InsiderEdit::SetPathKey(0, fresh_key.clone())),
